@@ -76,6 +76,14 @@ func init() {
 	register("C14", func(r *Run) error {
 		return runB(r, &BSpec{
 			ID: "C14", Profiles: []string{"throwrecover", "throwrecover", "statefulthrow"},
+			Gen: func(r *Run, i int, seed int) *gspec.Grammar {
+				if i%4 == 3 {
+					// left-recursive grammars with throw / recover
+					return gspec.LRThrowGrammarGen().Example(seed)
+				}
+				ps := []string{"throwrecover", "throwrecover", "statefulthrow"}
+				return gspec.GrammarGen(gspec.Profile(ps[i%len(ps)])).Example(seed)
+			},
 			Grammars: [2]int{192, 1600}, Cases: [2]int{500, 1000}, Variants: plainAndOptimized,
 			Rule:        "grammars from profile throwrecover (nested recovery operators, several and shared labels, throws in called rules, inside repetitions and predicates, handlers that fail, unhandled labels); compared with the reference's dynamic handler stack: success, consumed prefix, value (recovery expression's value in place of the throw), code-block trace. Non-trivial = >=1 throw handled or a failing handler falling through to an outer one.",
 			Assumptions: commonAssumptions,
